@@ -108,7 +108,9 @@ def classify_interstorms(cursor, data_interval, rising_jump_threshold_mm_h):
     # Look for jumps in head much bigger than noise, which could
     # indicate the onset of rain, and mark everything after the jump
     # until the next rain as a "mystery jump".
-    rates = np.concatenate(([0], (zeta_mm[1:] - zeta_mm[:-1]) / (hour[1:] - hour[:-1])))
+    rates = np.concatenate(
+        ([0], (zeta_mm[1:] - zeta_mm[:-1]) / (np.diff(epoch) / 3600.0))
+    )
     is_jump = (rates > rising_jump_threshold_mm_h).astype(bool)
     is_mystery_jump = get_mystery_jump_mask(is_jump, is_raining)
     is_interstorm = (~is_mystery_jump) & (~is_raining)
